@@ -502,8 +502,7 @@ def ob_float(method, timeout_ms):
         tiny = z3.fpLEQ(z, fp_const(2.0 ** -30))
         corners = [[p.term == fp_const(1.0), tiny, n.term == fp_const(1.0)], [p.term == fp_const(0.0), tiny, n.term == fp_const(1.0)]]
         if thorough:
-            corners += [[p.term == fp_const(1.0), tiny], [p.term == fp_const(0.0), tiny], [p.term == fp_const(1.0)], [p.term == fp_const(0.0)],
-                        [p.term == fp_const(1.0), n.term == fp_const(1e9)], []]
+            corners += [[p.term == fp_const(1.0), tiny], [p.term == fp_const(0.0), tiny], [p.term == fp_const(1.0), n.term == fp_const(1e9)]]
         for corner in corners:
             t0_ = _time.time()
             r, m = common.check(tally, list(path.conds) + extra + corner, budget if corner else budget // 2, _retry=False,
